@@ -701,8 +701,8 @@ func (w *walker) stmt(s ast.Stmt) {
 		w.block(x.List)
 	case *ast.IfStmt:
 		w.stmt(x.Init)
-		always, never := w.condKnown(x.Cond)
-		w.expr(x.Cond, "rd")
+		cv := w.expr(x.Cond, "rd")
+		always, never := cv != nil && cv.known > 0, cv != nil && cv.known < 0
 		latch := w.latchObserved(x.Cond)
 		var outs [][]heldTok
 		var deads []bool
@@ -925,47 +925,29 @@ func endsWithBreak(list []ast.Stmt) bool {
 	}
 }
 
-// condKnown: conditions decided by what is known about the operands — a mutex of a domain with an
+// nilCompare: `x == nil` / `x != nil` decided by what is known about x — a mutex of a domain with an
 // optional mutex is non-nil (the domain is the *synchronised* variant), a known function value is
-// non-nil, the literal nil is nil, a boolean parameter bound to such a condition keeps its value.
-func (w *walker) condKnown(c ast.Expr) (always, never bool) {
-	c = unparen(c)
-	if id, ok := c.(*ast.Ident); ok {
-		if obj := w.info.Uses[id]; obj != nil {
-			if v := w.n.env.get(obj); v != nil {
-				return v.known > 0, v.known < 0
-			}
-		}
-		return
+// non-nil, the literal nil is nil.
+func (w *walker) nilCompare(op token.Token, pos token.Pos, vx, vy *aval) int {
+	if op != token.NEQ && op != token.EQL {
+		return 0
 	}
-	be, ok := c.(*ast.BinaryExpr)
-	if !ok || (be.Op != token.NEQ && be.Op != token.EQL) {
-		return
+	var v *aval
+	switch {
+	case vy != nil && vy.isNil && (vx == nil || !vx.isNil):
+		v = vx
+	case vx != nil && vx.isNil:
+		v = vy
+	default:
+		return 0
 	}
-	var other ast.Expr
-	if id, ok := be.Y.(*ast.Ident); ok && id.Name == "nil" {
-		other = be.X
-	} else if id, ok := be.X.(*ast.Ident); ok && id.Name == "nil" {
-		other = be.Y
-	} else {
-		return
-	}
-	id, ok := unparen(other).(*ast.Ident)
-	if !ok {
-		return
-	}
-	obj := w.info.Uses[id]
-	if obj == nil {
-		return
-	}
-	v := w.n.env.get(obj)
 	if v == nil {
-		return
+		return 0
 	}
 	nonNil, isNil := false, v.isNil
 	if v.lock != nil && len(w.d.optional) > 0 {
 		nonNil = true
-		w.d.optionalUsed[w.where(c.Pos())] = true
+		w.d.optionalUsed[w.where(pos)] = true
 	}
 	if len(v.funcs) > 0 {
 		nonNil = true
@@ -976,12 +958,16 @@ func (w *walker) condKnown(c ast.Expr) (always, never bool) {
 		}
 	}
 	if !nonNil && !isNil {
-		return
+		return 0
 	}
-	if be.Op == token.NEQ {
-		return nonNil, isNil
+	truth := nonNil
+	if op == token.EQL {
+		truth = isNil
 	}
-	return isNil, nonNil
+	if truth {
+		return 1
+	}
+	return -1
 }
 
 // latchName: the configured latch an identifier denotes ("" if none)
